@@ -160,6 +160,7 @@ func init() {
 		"(*strings.Builder).String":        extBuilderString,
 		"(*strings.Builder).copyCheck":     func(fr *frame, a []value) (value, bool) { return nil, true },
 		"strings.Clone":                    func(fr *frame, a []value) (value, bool) { return a[0], true },
+		"internal/stringslite.Clone":      func(fr *frame, a []value) (value, bool) { return a[0], true },
 		"internal/abi.NoEscape":            func(fr *frame, a []value) (value, bool) { return a[0], true },
 		"internal/abi.Escape":              func(fr *frame, a []value) (value, bool) { return a[0], true },
 		"runtime.KeepAlive":                func(fr *frame, a []value) (value, bool) { return nil, true },
@@ -189,6 +190,7 @@ func init() {
 		"fmt.Fprintln": extFprint,
 
 		// ---- time (clock is nondeterministic)
+		"time.initLocal": func(fr *frame, a []value) (value, bool) { return nil, true },
 		"time.Now":   extTimeNow,
 		"time.now":   extTimeNowRaw,
 		"time.Sleep": func(fr *frame, a []value) (value, bool) { fr.i.yield(); return nil, true },
